@@ -178,6 +178,33 @@ def tool_oracle(data):
     return b"".join(l + b"\n" for l in lines if py_is_utf8(l))
 
 
+def shrink(impl, op, data, expect_fn, budget=12):
+    """delta-debugging on bytes: the smallest input found on which the implementation still disagrees with the oracle
+    (candidates of one round are evaluated in one harness run)"""
+    cur = data
+    for _ in range(budget):
+        cands = []
+        n = len(cur)
+        k = max(1, n // 2)
+        while k >= 1:
+            for i in range(0, n, k):
+                cand = cur[:i] + cur[i + k:]
+                if len(cand) < n and cand not in cands:
+                    cands.append(cand)
+            k //= 2
+        if not cands:
+            break
+        cands = cands[:400]
+        rc, out, err = run_lines(impl, ["%s %s" % (op, hexs(x)) for x in cands])
+        if len(out) != len(cands):
+            break
+        better = [x for x, o in zip(cands, out) if o != expect_fn(x)]
+        if not better:
+            break
+        cur = min(better, key=len)
+    return cur
+
+
 def load_replay(c):
     if not c.replay:
         return None
@@ -191,7 +218,7 @@ def main(argv):
     if not ok:
         c.broken.append("build of repo working tree failed: " + blog[-800:])
         return c.finish(rule="build failed")
-    c.proofs()
+    c.proofs(only=["utf8"])
     from gen.fallback import shape_note
     note = shape_note("Src_utf8.v")
     if note:
@@ -212,7 +239,7 @@ def main(argv):
         if rp.get("op") in ("IsUTF8", "iterator") and rp.get("input_hex") is not None:
             U.insert(0, bytes.fromhex(rp["input_hex"]))
             I.insert(0, bytes.fromhex(rp["input_hex"]))
-    lines = ["D " + hexs(b) for b in D] + ["U " + hexs(b) for b in U] + ["I " + hexs(b) for b in I]
+    lines = ["C"] + ["D " + hexs(b) for b in D] + ["U " + hexs(b) for b in U] + ["I " + hexs(b) for b in I]
     for b in D:
         r = py_first(b[:4])
         c.count(("D", b), bucket="decode/buf%d/%s" % (min(len(b), 5), "bad" if r is None else "len%d" % r[1]))
@@ -282,6 +309,8 @@ def main(argv):
     if len(out) != len(lines) + len(mism):
         c.broken.append("harness hx_utf8 died: rc=%s %s" % (rc, err[-300:]))
     else:
+        out = out[1:]          # the constants line "C" is compared model-vs-compiled code only
+        lines = lines[1:]
         nD, nU = len(D), len(U)
         for b, o in list(zip(D, out[:nD])) + list(zip(mism, out[len(lines):])):
             r = py_first(b[:4])
@@ -291,9 +320,15 @@ def main(argv):
                 c.violation("decode/%s: DecodeUTF8(%s) gave %s, Unicode Table 3-7 says %s" % (kind, hexs(b), o, want),
                             {"op": "DecodeUTF8", "input_hex": hexs(b), "impl": o, "expected": want,
                              "how": "echo 'D %s' | hx_utf8" % hexs(b)})
+        shrunk = set()
         for b, o in zip(U, out[nD:nD + nU]):
             want = "T" if py_is_utf8(b) else "F"
             if o != want:
+                if "U" not in shrunk and len(b) > 6:      # minimise the first failing input
+                    shrunk.add("U")
+                    b = shrink(impl, "U", b, lambda x: "T" if py_is_utf8(x) else "F")
+                    want = "T" if py_is_utf8(b) else "F"
+                    o = "F" if want == "T" else "T"
                 c.violation("is_utf8/%s: IsUTF8(%s) = %s but the string is %s" % ("ill-formed-accepted" if want == "F" else "well-formed-rejected", hexs(b), o,
                                                                                  "well-formed" if want == "T" else "ill-formed"),
                             {"op": "IsUTF8", "input_hex": hexs(b), "impl": o, "expected": want,
@@ -301,6 +336,16 @@ def main(argv):
         for b, o in zip(I, out[nD + nU:len(lines)]):
             okk, items = py_items(b)
             want = ("OK" if okk else "BAD") + "".join(" %d:%d" % it for it in items)
+            if o != want and "I" not in shrunk and len(b) > 6:
+                shrunk.add("I")
+
+                def want_items(x):
+                    k2, it2 = py_items(x)
+                    return ("OK" if k2 else "BAD") + "".join(" %d:%d" % t for t in it2)
+                b = shrink(impl, "I", b, want_items)
+                want = want_items(b)
+                rc3, o3, _ = run_lines(impl, ["I " + hexs(b)])
+                o = o3[0] if o3 else o
             if o != want:
                 c.violation("iterator: DecodeUTF8Iterator over %s visited %r, expected %r" % (hexs(b), o, want),
                             {"op": "iterator", "input_hex": hexs(b), "impl": o, "expected": want})
@@ -409,15 +454,60 @@ def main(argv):
                              "piece_hex": hexs(bad[0]) if bad else ""})
                 break
 
-    if c.tier == "thorough":
-        asan_lines(c, "hx_utf8", lines, "(exact-size heap buffers)")
+    # ---- foldfilter on ILL-FORMED lines of every length relative to the width (shorter, width-1, width, width+1, longer;
+    #      bad byte first / middle / last; default width too): it may stop with a diagnosed failure, but no ill-formed
+    #      piece may reach the child and no ill-formed line may reach stdout
+    ff_cases = []
+    for width in (None, 5, 10, 16):
+        wv = 80 if width is None else width
+        for ln in sorted(set([1, 2, 3, wv - 2, wv - 1, wv, wv + 1, wv + 5, 2 * wv + 3])):
+            if ln < 1:
+                continue
+            for bad in (b"\xff", b"\xc0\xaf", b"\xed\xa0\x80", b"\xe2\x82", b"\x80"):
+                if len(bad) > ln:
+                    continue
+                for where in ("first", "middle", "last"):
+                    fill = ln - len(bad)
+                    k = 0 if where == "first" else (fill // 2 if where == "middle" else fill)
+                    body = (b"abcdefghij" * 20)
+                    ff_cases.append((width, body[:k] + bad + body[k:fill]))
+    if c.tier == "quick":
+        ff_cases = [x for i, x in enumerate(ff_cases) if i % 3 == 0 or len(x[1]) <= 12]
+    for width, badline in ff_cases:
+        seen_path = os.path.join(SCRATCH, "pieces_bad")
+        os.makedirs(SCRATCH, exist_ok=True)
+        if os.path.exists(seen_path):
+            os.unlink(seen_path)
+        data = b"fine line\n" + badline + b"\n" + b"fine again\n"
+        args = ([] if width is None else ["-w", str(width)]) + (["-s"] if (len(badline) + len(data)) % 4 == 0 else [])
+        st, so, se = run_tool([repo_bin("foldfilter")] + args + ["tee", seen_path], stdin=data, timeout=60)
+        wv = 80 if width is None else width
+        rel = "shorter" if len(badline) < wv else ("equal" if len(badline) == wv else "longer")
+        c.count(("foldfilter-bad", width, badline), bucket="tool/foldfilter-ill-formed-line/" + rel + "-than-width")
+        c.cov["traces_validated_against_impl"] += 1
+        pieces = open(seen_path, "rb").read().split(b"\n") if os.path.exists(seen_path) else []
+        bad_p = [p_ for p_ in pieces if not py_is_utf8(p_)]
+        bad_o = [l_ for l_ in so.split(b"\n") if not py_is_utf8(l_)]
+        if st == "timeout":
+            c.violation("tool/foldfilter-hang: foldfilter %s hung on the ill-formed %d-byte line %r" % (" ".join(args), len(badline), badline),
+                        {"op": "foldfilter", "kind": "hang", "args": args + ["tee", "<file>"], "stdin_hex": hexs(data)})
+        elif bad_p or bad_o:
+            c.violation("tool/foldfilter-ill-formed-forwarded: foldfilter %s forwarded the ill-formed %d-byte line %r (%s than the width %d) to %s instead of stopping (status %s)" % (
+                " ".join(args), len(badline), badline, rel, wv, "its child" if bad_p else "stdout", st),
+                {"op": "foldfilter", "kind": "ill-formed-forwarded", "args": args + ["tee", "<file>"], "stdin_hex": hexs(data),
+                 "piece_hex": hexs(bad_p[0]) if bad_p else "", "stdout_hex": hexs(so[:2000]), "status": str(st),
+                 "how": "printf '<stdin>' | bin/foldfilter %s tee /tmp/pieces | xxd" % " ".join(args)})
+            break
+
+    # ASan/UBSan build of the harness: buffers are exact-size heap blocks, so any read past `end` is reported
+    asan_lines(c, "hx_utf8", lines if c.tier == "thorough" else lines[:70000] + lines[-3000:], "(exact-size heap buffers)")
 
     shutil.rmtree(SCRATCH, ignore_errors=True)
     return c.finish(level="proof",
                     rule="DecodeUTF8: every buffer of exactly 1, 2 and 3 bytes natively (2^8+2^16+2^24) and every 4-byte buffer with lead F0..F7 (quick) / all 2^32 (thorough) "
                          "against the model's 65,536-row pair table composed with the trail tests (theorem C12_window_composite), plus model-vs-implementation on all 1/2-byte buffers, "
                          "all (b0,b1) x boundary classes of (b2,b3), every truncation of boundary code points with following bytes, random buffers; IsUTF8/iterator: compositions of "
-                         "boundary sequences with one ill-formed piece or cut; tool: remove_invalid_utf8 on generated files incl. CR, NUL, empty lines, missing final newline. "
+                         "boundary sequences with one ill-formed piece or cut; tool: remove_invalid_utf8 on generated files incl. CR, NUL, empty lines, missing final newline; commoncrawl_dedupe output; foldfilter pieces for well-formed lines and ill-formed lines shorter/equal/longer than the width. "
                          "Oracle: Python strict UTF-8 decoder. distinct = distinct non-empty inputs (sweep windows counted in evaluations only)",
                     assumptions=["bytes are Z in [0,256); char is signed (x86-64 g++), modelled by signed_char",
                                  "NotUTF8Exception = rejection; DecodeUTF8 is only called with a non-empty buffer (the iterator guarantees it)",
